@@ -232,8 +232,9 @@ class Fill(Doc):
         propagate_broken = False
         for doc in self.docs:
             if isinstance(doc, AlwaysBreak):
+                # Keep the item wrapped, so that the layout still
+                # breaks its contents.
                 propagate_broken = True
-                doc = doc.doc
 
             if doc is NIL:
                 continue
